@@ -139,12 +139,14 @@ def run_case(rec_exe, prod_exe, workdir, c, idx):
             res["status"] = l[7:]
         elif l.startswith("SHL"):
             res["shl"] = [int(x) for x in l.split()[1:]]
+        elif l.startswith("SHF"):
+            res["shf"] = [int(x) for x in l.split()[1:]]
         elif l.startswith("WL"):
             res["wl"] = [int(x) for x in l.split()[1:]]
         elif l.startswith("FILE"):
             res["file"] = bytes.fromhex(l[5:].strip())
     shutil.rmtree(d, ignore_errors=True)
-    if "file" not in res or "shl" not in res or "wl" not in res:
+    if "file" not in res or "shl" not in res or "wl" not in res or "shf" not in res:
         res["error"] = "no result (rc=%s): %s" % (p.returncode, p.stderr[-300:])
     return res
 
@@ -174,11 +176,11 @@ def coq_ops(c, f0):
 
 def coq_case(c, r, f0):
     return ("{| tc_cap := %d; tc_ops := %s; tc_sync := [%s]; tc_kill := %s; tc_flush := %s; "
-            "tc_shl := %s; tc_wl := %s; tc_file := %s |}" % (
+            "tc_shl := %s; tc_shf := %s; tc_wl := %s; tc_file := %s |}" % (
                 c["cap"], coq_ops(c, f0), "; ".join(coq.coq_bool(b) for b in c["sync"]),
                 ("Some %d" % c["e"]) if c["mode"] == "kill" else "None",
                 coq.coq_bool(c["mode"] in ("segv", "abrt")),
-                coq_nats(r["shl"]), coq_nats(r["wl"]), coq_bytes(r["file"])))
+                coq_nats(r["shl"]), coq_bytes(r["shf"]), coq_nats(r["wl"]), coq_bytes(r["file"])))
 
 
 PRE = """From Coq Require Import NArith ZArith List Bool Arith.
@@ -212,7 +214,7 @@ def case_json(c, r=None):
     j = {"cap": c["cap"], "ops": [list(o) for o in c["ops"]], "sync": c["sync"], "mode": c["mode"], "e": c["e"],
          "args": c["args"]}
     if r is not None:
-        j["impl"] = {"status": r.get("status"), "shl": r.get("shl"), "wl": r.get("wl"),
+        j["impl"] = {"status": r.get("status"), "shl": r.get("shl"), "shf": r.get("shf"), "wl": r.get("wl"),
                      "file": r.get("file", b"").hex()}
     return j
 
@@ -256,9 +258,38 @@ def store_cases(ctx):
         c["sync"] = [False, False, e % 2 == 1, False]
         c["e"] = e
         cases.append(c)
+    cases += shrink_cases()
     for _ in range(ctx.n(70, 1200)):
         cases.append(gen_case(rng))
     return cases
+
+
+def shrink_cases():
+    """ring grown to 5 buffers, recorder catches up twice, the next switch shrinks the ring to 4 (last buffer
+    WRITTEN and unmapped), then the ring grows again: index 4 is re-created (zero filled, flag RECORDING only)"""
+    ops, sync, t = [], [], 1000
+
+    def call(n, s=False):
+        nonlocal t
+        for i in range(n):
+            t += 10
+            ops.append(("E", 7 + (i % 2), t, 0, 0))
+            sync.append(s and i == 0)
+        for i in range(n):
+            t += 10
+            ops.append(("X", t, 0))
+            sync.append(False)
+    call(5)
+    call(1, True)
+    call(1, True)
+    out = []
+    for k in range(4):
+        call(1)
+        if k >= 2:          # k == 2: the re-created buffer 4 is the current one at the end
+            for mode, e in (("exit", None), ("kill", 1), ("kill", 2), ("segv", None)):
+                out.append({"cap": 32, "ops": list(ops), "sync": list(sync), "mode": mode, "e": e, "args": False,
+                            "directed": "shrink"})
+    return out
 
 
 def run_store(ctx, objdir):
@@ -271,6 +302,7 @@ def run_store(ctx, objdir):
         results = list(ex.map(lambda ic: run_case(rec_exe, prod_exe, work, ic[1], ic[0]), enumerate(cases)))
     ctx.log("store-level tie: %d producer runs in %.1fs" % (len(cases), time.time() - t0))
     good_c, good_r = [], []
+    ret_exe = rec_exe
     for c, r in zip(cases, results):
         if r.get("error"):
             ctx.broken("store-level harness failed on a case: %s" % r["error"], json.dumps(case_json(c))[:2000])
@@ -278,10 +310,10 @@ def run_store(ctx, objdir):
         good_c.append(c)
         good_r.append(r)
     if not good_c:
-        return
+        return ret_exe
     res = eval_store(ctx, good_c, good_r, f0)
     if res is None:
-        return
+        return ret_exe
     window = set(res["window"])
     for i, (c, r) in enumerate(zip(good_c, good_r)):
         nrec = len(r["file"]) // 16
@@ -296,9 +328,12 @@ def run_store(ctx, objdir):
             tags.append("store:ring-grown")
         if i in window:
             tags.append("store:window(header-before-payload)")
+        if c.get("directed"):
+            tags.append("store:directed-" + c["directed"])
         ctx.case(key=("store", json.dumps(case_json(c), sort_keys=True)), nontrivial=len(r["file"]) > 0, tags=tags,
                  size=len(c["ops"]), sample=case_json(c, r) if len(ctx.samples) < 2 and nrec > 2 else None)
     store_verdict(ctx, good_c, good_r, res, f0)
+    return ret_exe
 
 
 def store_verdict(ctx, cases, results, res, f0):
@@ -312,7 +347,7 @@ def store_verdict(ctx, cases, results, res, f0):
                       "checker accepts the implementation's files" % len(res["mismatch"]),
                       {"line": "store", "correspondence": "C04.Model (pstep/rstep/wstep/finish) vs libmcount/record.c + "
                        "cmds/record.c", "first_disagreement": case_json(cases[i], results[i]),
-                       "model_expects(shl, wl, file)": model_obs(ctx, cases[i], results[i], f0)}, False)
+                       "model_expects(shl, flags, wl, file)": model_obs(ctx, cases[i], results[i], f0)}, False)
     ctx.extra["store_disagreements"] = len(res["mismatch"])
     # the known defect: header stored and counted before the payload
     wbad = [i for i in res["window"] if i in set(res["window_bad"])]
@@ -334,6 +369,192 @@ def report_known(ctx, key, text, replay):
     else:
         ctx.log("known defect reproduced (not listed in known-findings.txt, reported in evidence only): %s: %s"
                 % (key, text))
+
+
+# ------------------------------------------------------------------ (B) liveness tie
+def msg_consts():
+    txt = open(os.path.join(coq.TH, "Gen", "Consts.v")).read()
+    out = {}
+    for name in ("TASK_START", "TASK_END", "FORK_START", "FORK_END", "FINISH"):
+        m = re.search(r"Definition UFTRACE_MSG_%s : N := (\d+)\." % name, txt)
+        out[name] = int(m.group(1))
+    return out
+
+
+class LiveHarness:
+    def __init__(self, exe, d):
+        os.makedirs(d, exist_ok=True)
+        self.p = subprocess.Popen([exe, "live", d], stdin=subprocess.PIPE, stdout=subprocess.PIPE,
+                                  stderr=subprocess.DEVNULL, text=True, bufsize=1)
+
+    def cmd(self, line):
+        self.p.stdin.write(line + "\n")
+        self.p.stdin.flush()
+        out = self.p.stdout.readline()
+        if not out:
+            raise RuntimeError("c04_rec live died on: " + line)
+        return out.strip()
+
+    def close(self):
+        try:
+            self.p.stdin.write("QUIT\n")
+            self.p.stdin.flush()
+            self.p.wait(timeout=10)
+        except Exception:
+            self.p.kill()
+
+
+def run_live_case(exe, d, rng, MC, witness=False):
+    """returns the list of events (for Coq) of one history"""
+    h = LiveHarness(exe, d)
+    evs = []
+    try:
+        kids = [int(h.cmd("SPAWN").split()[1]) for _ in range(rng.randrange(1, 5))]
+        alive, zombie, dead = set(kids), set(), set()
+        ghost = [4190000 + rng.randrange(1000) for _ in range(2)]     # tids that never existed
+        dead.update(ghost)
+        p0 = kids[0]
+        pending_fork = []          # parent pids of FORK_START without FORK_END
+
+        def msg(name, pid, tid):
+            h.cmd("MSG %d %d %d" % (MC[name], pid, tid))
+            evs.append(("msg", name, pid, tid))
+
+        def check():
+            k = h.cmd("CHECK").split()
+            ents = [tuple(int(x) for x in e.split(":")) for e in k[4:]]
+            evs.append(("check", sorted(dead | zombie), int(k[1]), int(k[2]), int(k[3]), ents))
+
+        if witness:
+            msg("TASK_START", p0, p0)
+            msg("FORK_START", p0, 0)
+            msg("TASK_END", p0, p0)
+            for k in kids:
+                h.cmd("KILL %d" % k)
+                zombie.add(k)
+            for _ in range(3):
+                check()
+            return evs
+        for _ in range(rng.randrange(6, 26)):
+            x = rng.random()
+            anyp = rng.choice(kids + ghost)
+            if pending_fork and x < 0.5:
+                pp = pending_fork.pop(0)
+                msg("FORK_END", pp if rng.random() < 0.7 else 1, anyp)     # ppid 1: the daemon() fallback
+            elif x < 0.25:
+                msg("TASK_START", p0, anyp)
+            elif x < 0.40:
+                msg("TASK_END", p0, anyp)
+            elif x < 0.50:
+                msg("FORK_START", rng.choice(kids), 0)
+                pending_fork.append(evs[-1][2])
+            elif x < 0.55:
+                msg("FINISH", 0, 0)
+            elif x < 0.65:
+                h.cmd("SIGCHLD %d" % anyp)
+                evs.append(("sig", anyp))
+            elif x < 0.80 and alive:
+                k = rng.choice(sorted(alive))
+                h.cmd("KILL %d" % k)
+                alive.discard(k)
+                zombie.add(k)
+            elif x < 0.88 and zombie:
+                k = rng.choice(sorted(zombie))
+                h.cmd("REAP %d" % k)
+                zombie.discard(k)
+                dead.add(k)
+            elif not pending_fork:      # stay out of the fork-window class (dedicated witness only)
+                check()
+        while pending_fork:
+            msg("FORK_END", pending_fork.pop(0), rng.choice(kids))
+        for k in sorted(alive):
+            h.cmd("KILL %d" % k)
+            zombie.add(k)
+        check()
+        check()
+        return evs
+    finally:
+        h.close()
+
+
+def coq_lev(e):
+    def z(n):
+        return "(%d)%%Z" % n
+    if e[0] == "msg":
+        _, name, pid, tid = e
+        m = {"TASK_START": "TaskStart %s %s" % (z(pid), z(tid)), "TASK_END": "TaskEnd %s" % z(tid),
+             "FORK_START": "ForkStart %s" % z(pid), "FORK_END": "ForkEnd %s %s" % (z(pid), z(tid)),
+             "FINISH": "Finish"}[name]
+        return "LMsg (%s)" % m
+    if e[0] == "sig":
+        return "LSig %s" % z(e[1])
+    _, dead, ret, cex, fin, ents = e
+    return "LCheck [%s] %s %s %s [%s]" % (
+        "; ".join(z(d) for d in dead), coq.coq_bool(ret), coq.coq_bool(cex), coq.coq_bool(fin),
+        "; ".join("(%s, %s, %s)" % (z(p), z(t), coq.coq_bool(x)) for p, t, x in ents))
+
+
+def eval_live(ctx, hists, name="cases_live"):
+    defs = "Definition hists : list (list lev) := [\n%s\n].\n" % ";\n".join(
+        "[" + "; ".join(coq_lev(e) for e in h) + "]" for h in hists)
+    res = coq.run_cases(ctx, name, PRE, defs, [
+        ("mismatch", "bad_indices (fun h => live_agrees h (rs0 [])) hists 0"),
+        ("violations", "bad_indices ok_live hists 0"),
+        ("forkwin", "bad_indices (fun h => negb (fork_window_seen h)) hists 0"),
+    ])
+    if res is None:
+        return None
+    return {k: coq.parse_nat_list(v) for k, v in res.items()}
+
+
+def run_live(ctx, rec_exe):
+    MC = msg_consts()
+    hists = []
+    d = os.path.join(ctx.scratch, "live")
+    n = ctx.n(40, 600)
+    for i in range(n + 1):
+        witness = (i == 0)
+        try:
+            evs = run_live_case(rec_exe, os.path.join(d, "h%d" % (i % 4)), ctx.rng, MC, witness=witness)
+        except RuntimeError as ex:
+            ctx.broken("liveness harness failed: %s" % ex)
+            continue
+        hists.append(evs)
+        tags = ["live:witness-fork-window"] if witness else ["live:history"]
+        if any(e[0] == "msg" and e[1] == "FORK_END" and e[2] == 1 for e in evs):
+            tags.append("live:fork-end-daemon-fallback")
+        if any(e[0] == "msg" and e[1] == "FINISH" for e in evs):
+            tags.append("live:finish")
+        if any(e[0] == "check" and e[2] == 1 for e in evs):
+            tags.append("live:all-exited")
+        ctx.case(key=("live", repr(evs)), tags=tags, size=len(evs),
+                 sample={"liveness_history": evs[:12]} if i == 1 else None)
+    res = eval_live(ctx, hists)
+    if res is None:
+        return
+    live_verdict(ctx, hists, res)
+
+
+def live_verdict(ctx, hists, res):
+    for i in res["violations"][:3]:
+        ctx.violation("C04 violated (recorder liveness): check_tid_list does not report a dead task / does not "
+                      "answer `all exited` when every listed task is marked", {"line": "live", "history": hists[i]}, True)
+    if res["mismatch"] and not res["violations"]:
+        i = res["mismatch"][0]
+        ctx.violation("model and implementation of the recorder's task bookkeeping disagree (%d histories); the "
+                      "property checker accepts the implementation's answers" % len(res["mismatch"]),
+                      {"line": "live", "correspondence": "C04.Model handle/sigchld/check_tid_list vs cmds/record.c",
+                       "first_disagreement": hists[i]}, False)
+    ctx.extra["live_disagreements"] = len(res["mismatch"])
+    if 0 in res["forkwin"]:
+        report_known(ctx, "fork-window",
+                     "FORK_START without FORK_END (fork() failed or the child died before its atfork handler): the "
+                     "tid_list entry with tid = -1 is never marked exited, check_tid_list never returns true and "
+                     "`uftrace record` does not terminate although every task is dead",
+                     {"line": "live", "history": hists[0]})
+    extra = [i for i in res["forkwin"] if i != 0]
+    if extra:
+        ctx.broken("generator entered the fork-window class outside the dedicated witness (history %d)" % extra[0])
 
 
 # ------------------------------------------------------------------ entry points
@@ -368,7 +589,8 @@ def run(ctx):
     common_meta(ctx)
     coq.prove(ctx, "C04")
     objdir = build.get_build("plain", ctx.log)
-    run_store(ctx, objdir)
+    rec_exe = run_store(ctx, objdir)
+    run_live(ctx, rec_exe)
 
 
 def replay(ctx, obj):
@@ -391,3 +613,14 @@ def replay(ctx, obj):
         ctx.log("model expects", model_obs(ctx, c, r, f0))
         if res is not None:
             store_verdict(ctx, [c], [r], res, f0)
+    elif obj.get("line") == "live":
+        # real pids differ from run to run: the recorded history is re-judged, and a fresh batch is run
+        h = obj.get("history") or obj.get("first_disagreement")
+        hist = [tuple(tuple(x) if isinstance(x, list) and e[0] != "check" else x for x in e) for e in h]
+        hist = [(e[0], e[1], e[2], e[3], e[4], [tuple(t) for t in e[5]]) if e[0] == "check" else tuple(e) for e in hist]
+        res = eval_live(ctx, [hist], "replay_live")
+        ctx.case(key="replay")
+        if res is not None:
+            live_verdict(ctx, [hist], {"violations": res["violations"], "mismatch": res["mismatch"], "forkwin": []})
+        rec_exe, _, _ = build_store(ctx, objdir)
+        run_live(ctx, rec_exe)
